@@ -63,6 +63,8 @@ def run(ctx):
         for k in range(ctx.scale(25, 200)):
             c = C02par.gen_blockcase(rng, "w%d_%d" % (P, k), P)
             ops = [rng.choice(["to_bcoo", "to_bsr", "to_bsc", "copy"]) for _ in range(rng.choice([1, 1, 2, 3]))]
+            if rng.random() < 0.45:       # back to ParCSR: ParBSR expands to scalars (ParBCOO / ParBSC return the block-row form)
+                ops = ([rng.choice(["to_bsr", "copy"]) for _ in range(rng.choice([0, 1]))] if rng.random() < 0.7 else ops[:2]) + ["to_csr"]
             c.update(ops=ops, line=" ".join(str(x) for x in [c["cid"], "pbconv", c["br"], c["bc"]] + C02par.parlit_tokens(c, True) + [len(ops)] + ops))
             bcases.append(c)
         impl, crashed = fw.run_impl_lines(ctx, "drv_parmat", [c["line"] for c in bcases], nprocs=P, name="pbconv_%d" % P)
@@ -75,6 +77,12 @@ def run(ctx):
                 ctx.signal("O", sig + ":crash_or_hang", "implementation did not complete: %s" % (r[:1] if r else None,), case=c["line"]); continue
             ok, why = fw.dense_equal(gathered(res["T"]), dense_of(c["trip"]))
             dims = commgen.split_ranks(res["D"])
+            if ok and dims and "fc" in dims[0]:
+                # scalar result: every rank's column block is the scalar image of its block-column block
+                for p_, dk in enumerate(dims):
+                    q = dk.index("fc"); fcol, ncol = int(dk[q + 1]), int(dk[q + 2])
+                    if (fcol, ncol) != (c["fc"][p_], c["fc"][p_ + 1] - c["fc"][p_]) and c["fc"][p_ + 1] > c["fc"][p_]:
+                        ok, why = False, "rank %d: column block starts at %d with %d columns, required %d with %d" % (p_, fcol, ncol, c["fc"][p_], c["fc"][p_ + 1] - c["fc"][p_]); break
             if ok and dims and (int(dims[0][0]) * c["br"], int(dims[0][1]) * c["bc"]) != (c["nr"], c["nc"]):
                 ok, why = False, "global block dimensions %s x %s for a %d x %d matrix in %dx%d blocks" % (dims[0][0], dims[0][1], c["nr"], c["nc"], c["br"], c["bc"])
             if not ok:
